@@ -103,7 +103,7 @@ class ScratchSys:
             for v in self.vals:
                 evs.append(("set", k, v))
             evs.append(("del", k))
-        evs += [("exit",), ("raise",), ("cancel",)]
+        evs += [("exit",), ("raise",), ("cancel",), ("exit_in_handler",)]
         # a SECOND batch on the same ScratchDB object right after a normal exit
         for dd2 in (False, True):
             for k in self.keys:
@@ -134,9 +134,15 @@ class ScratchSys:
         pre = d.plain()
         d.frozen = False
         d.reset_log()
-        if ev[0] in ("exit", "exit2"):
+        if ev[0] in ("exit", "exit2", "exit_in_handler"):
             try:
-                cm.__exit__(None, None, None)
+                if ev[0] == "exit_in_handler":
+                    try:
+                        raise ValueError("an unrelated error the caller is recovering from")
+                    except ValueError:
+                        cm.__exit__(None, None, None)  # a normal exit of the batch, inside an except block
+                else:
+                    cm.__exit__(None, None, None)
             except Exception as e:  # noqa
                 viols.append(V("C17", "commit_raised", f"normal exit raised {type(e).__name__}", event="exit", exc=repr(e)[:120]))
                 return Step(None, None, viols)
@@ -259,7 +265,7 @@ class ScratchSys:
         elif ev[0] in ("set", "del"):
             self.apply(s, ev)
             live["ops"] += (ev,)
-        elif ev[0] == "exit":
+        elif ev[0] in ("exit", "exit_in_handler"):
             live["cm"].__exit__(None, None, None)
             live["ops"] = None
         elif ev[0] == "exit2":
